@@ -9,6 +9,7 @@ import Sth.Model.Translate
 import Sth.Model.Recover
 import Sth.Model.CrashImage
 import Sth.Model.CrashImageOpen
+import Sth.Model.CrashImageClose
 
 namespace Driver.Crash
 open Sth Driver Driver.Img
@@ -29,6 +30,8 @@ structure St where
   imgTaint11 : Bool := false
   upgradingOpen : Bool := false      -- the last op was the open that upgrades a legacy store
   prevDisk : Disk := {}              -- the model's disk before the last operation
+  prevMem : Option Mem := none       -- and its memory state
+  lastOrder : List Nat := []         -- flush order of the last operation (read back from the index log by the engine)
 deriving Repr
 
 def showRead (r : Driver.Seq.St → Bytes → (Mem × GetRes)) : Unit := ()
@@ -140,8 +143,30 @@ def step (st : St) (l : Line) : St × List Msg :=
       let steps := st.prevDisk :: openSteps st.seq.cfg st.prevDisk
       if steps.any (· == im.disk) then ([], [Msg.flag "open-image-in-model"] ++ (if im.disk == st.prevDisk then [] else [Msg.flag "open-image-interior"]))
       else ([Msg.corr (tag ++ s!"image of a crash inside OpenStore is not the directory after any of the model's {steps.length - 1} open steps")], [])
-    let corr := corr ++ corrImg ++ corrOpen
-    let flags := flagImg ++ flagOpen ++ (if drainFiles.isEmpty then [] else [Msg.flag "c11-drain-after-recovery"]) ++
+    -- (e) tie of Sth/Model/CrashImageClose.lean: an image captured while Store.Close ran is one of the model's Close images
+    -- (a leftover snapshot temporary is not part of the image)
+    let inClose := st.lastOp == "close" && im.extra.all (·.endsWith ".tmp") && !im.badIdxHdr && !im.badPriHdr && st.prevMem.isSome
+    let (corrClose, flagClose) : List Msg × List Msg :=
+      if !inClose then ([], []) else
+      match st.prevMem with
+      | none => ([], [])
+      | some pm =>
+        match closeParts pm st.prevDisk (fixOrder st.lastOrder pm.inext.keys) with
+        | none => ([], [])
+        | some (d2, sn, dC) =>
+          let frGrow := match im.disk.free with
+            | some f => (f.length - (st.prevDisk.free.getD []).length) + (if st.prevDisk.free.isSome then 0 else 1)
+            | none => 0
+          let evPI : Nat :=
+            (im.disk.pfiles.map fun (n, f) => (f.length - (fileOf st.prevDisk.pfiles n).length) + (if st.prevDisk.pfiles.has n then 0 else 1)).sum +
+            (im.disk.ifiles.map fun (n, f) => (f.length - (fileOf st.prevDisk.ifiles n).length) + (if st.prevDisk.ifiles.has n then 0 else 1)).sum
+          let cands : List ClosePoint :=
+            if im.disk.snap.isSome then [.saved frGrow] else [.flush evPI false, .flush (evPI - 1) true]
+          if cands.any (fun pt => closeCrashImage st.prevDisk d2 sn dC pt == im.disk) then
+            ([], [Msg.flag "close-image-in-model"] ++ (if im.disk.snap.isSome then [Msg.flag "close-image-snapshot-saved"] else []))
+          else ([Msg.corr (tag ++ s!"image of a crash inside Close is not one of the model's Close images (snapshot {im.disk.snap.isSome}, {evPI} file events, {frGrow} freelist events)")], [])
+    let corr := corr ++ corrImg ++ corrOpen ++ corrClose
+    let flags := flagImg ++ flagOpen ++ flagClose ++ (if drainFiles.isEmpty then [] else [Msg.flag "c11-drain-after-recovery"]) ++
       (if drainFiles.any (fun f => f.1 < curFile ∧ f.2.1 > 0) then [Msg.flag "c11-drain-leftover-file"] else []) ++ [Msg.flag "crash-image"] ++ (if inTranslate then [Msg.flag "translate-crash"] else []) ++
       (if inTranslate && openRes = "err" then [Msg.flag "translate-crash-open-refused"] else []) ++ (if ra.get "tear" ≠ "none" then [Msg.flag "torn"] else []) ++
       [Msg.flag ("at:" ++ (point.splitOn ".").headD "")]
@@ -181,7 +206,8 @@ def step (st : St) (l : Line) : St × List Msg :=
     let (seq', msgs) := Driver.Seq.step st.seq l'
     let after := seq'.spec
     let kind := match seq'.store.mem with | some m => m.kind | none => seq'.cfg.kind
-    let st1 := { st with seq := seq', lastOp := l.op, upgradingOpen := l.op == "open" && st.seq.needSync, prevDisk := st.seq.store.disk }
+    let st1 := { st with seq := seq', lastOp := l.op, upgradingOpen := l.op == "open" && st.seq.needSync, prevDisk := st.seq.store.disk,
+                          prevMem := st.seq.store.mem, lastOrder := Driver.Seq.parseOrder ((resArgs res').get "order") }
     -- acknowledged effects
     let st2 :=
       if (l.op = "put" ∨ l.op = "rm") ∧ (res' = "ok" ∨ res' = "true") then
